@@ -446,3 +446,66 @@ def ob_restored_values_independent(ka: int, kb: int, twice: bool) -> bool:
     if second is not None and second != (va, vb):
         return False          # the second resume did not start from the snapshot
     return True
+
+
+# ----------------------------------------------------------------------------------------------- values nobody passed to a constructor
+from pydantic import BaseModel as _BM, Field as _Field  # noqa: E402
+
+
+class _Progress(_BM):
+    """a typed run state whose container fields start from their defaults and are filled in place by the steps"""
+
+    seen: list = _Field(default_factory=list)
+    notes: dict = _Field(default_factory=dict)
+    count: int = 0
+
+
+class _Job(Event):
+    labels: list = _Field(default_factory=list)
+    n: int = 0
+
+
+def _typed_state_scenario(how: int, in_event: bool):
+    from workflows.context.state_store import InMemoryStateStore
+    from workflows.runtime.types.internal_state import EventAttempt as _EA
+
+    async def scenario():
+        store = InMemoryStateStore(_Progress())
+        async with store.edit_state() as st:
+            if how == 0:
+                st.seen.append(1)            # default container filled in place
+                st.notes["k"] = "v"
+            elif how == 1:
+                st.seen = [1]                # assigned
+                st.notes = {"k": "v"}
+            st.count = 2
+        payload = json.loads(json.dumps(store.to_dict(SER)))
+        back = InMemoryStateStore.from_dict(payload, SER)
+        got = await back.get_state()
+        return (list(got.seen), dict(got.notes), got.count)
+
+    state_back = vlib.boot.drive(scenario())
+    ev_back = None
+    if in_event:
+        job = _Job(n=3)
+        job.labels.append("hot")             # a queued event whose default list was filled in place before it was sent
+        ev_back = SER.deserialize(json.loads(json.dumps(SER.serialize(job))))
+        ev_back = (type(ev_back).__name__, list(ev_back.labels), ev_back.n)
+    return state_back, ev_back
+
+
+@obligation(quick=90, thorough=200,
+            what="a TYPED run state (and an event) whose container fields were never passed to the constructor but filled in place (or assigned) by "
+                 "the steps: to_dict -> JSON -> from_dict brings back the values they held at the snapshot, not fresh class defaults",
+            bounds={"how": "filled in place / assigned / untouched", "carriers": "InMemoryStateStore typed state, JsonSerializer event"})
+def ob_unset_fields_survive_resume(how: int, in_event: bool) -> bool:
+    """
+    pre: 0 <= how <= 2
+    post: _
+    """
+    how, in_event = conc(how, 0, 2), concb(in_event)
+    state_back, ev_back = native(_typed_state_scenario, how, in_event)
+    want = ([1], {"k": "v"}, 2) if how <= 1 else ([], {}, 2)
+    if state_back != want:
+        return False
+    return ev_back is None or ev_back == ("_Job", ["hot"], 3)
